@@ -245,8 +245,8 @@ LOADABLE_SCALARS = {
     "int": ["pointer_depth", "int_value", "array_size", "first_default_param_index"],
     "typeinfo": ["type_info", "pointer_base_type", "literal_type", "cast_type_info", "new_type_info", "sizeof_type_info"],
     "string": ["name", "op", "str_value", "literal_text", "original_type_name", "enum_name", "enum_member", "struct_name",
-               "new_type_name", "exception_type", "lambda_return_type_name", "interpolation_format", "generic_base_name"],
-    "tname": ["type_name", "return_type_name", "pointer_base_type_name", "sizeof_type_name", "cast_target_type"],
+               "exception_type", "lambda_return_type_name", "interpolation_format", "generic_base_name"],
+    "tname": ["type_name", "return_type_name", "pointer_base_type_name", "sizeof_type_name", "cast_target_type", "new_type_name"],
     "strvec": ["type_parameters", "type_arguments", "member_chain"],
 }
 
@@ -291,7 +291,20 @@ def rand_tree(rng, depth, fields_bias=None):
                 if f in used_ptr:
                     continue
                 used_ptr.add(f)
-            kids.append((f, rand_tree(rng, depth - 1, fields_bias)))
+            sub = rand_tree(rng, depth - 1, fields_bias)
+            if f == "match_arms":
+                # a MatchArm: pseudo node 9998 with the arm's own members and at most one child "body"
+                asc = []
+                if rng.random() < 0.7:
+                    asc.append(("variant_name", rng.choice(["Some", "None", "Ok", "Err"])))
+                if rng.random() < 0.5:
+                    asc.append(("bindings", "\n".join(rng.choice(["v", "e", "x"]) for _ in range(rng.randint(1, 2)))))
+                if rng.random() < 0.7:
+                    asc.append(("enum_type_name", rand_name(rng) or "Opt<T>"))
+                if rng.random() < 0.2:
+                    asc.append(("pattern_type", str(rng.randint(1, 2))))
+                sub = (9998, [a for a in asc if a[1] != ""], [("body", sub)] if rng.random() < 0.9 else [])
+            kids.append((f, sub))
         kids = [kc for _, kc in sorted(enumerate(kids), key=lambda p: (_KIDX[p[1][0]], p[0]))]
     return (kind, sc, kids)
 
@@ -342,7 +355,7 @@ def name_scope_requests(maxlen):
     for n in range(1, maxlen + 1):
         for tup in itertools.product(alpha, repeat=n):
             s = "".join(tup)
-            t = (28, [("type_name", s), ("sizeof_type_name", s)], [])
+            t = (28, [("type_name", s), ("sizeof_type_name", s), ("new_type_name", s), ("type_arguments", s + "\n" + s)], [])
             reqs.append(("name", "SUBST 2 %s %s %s %s %s" % (enc("T"), enc("int"), enc("a"), enc("Q<T>"), show_tree(t))))
     return reqs
 
@@ -868,7 +881,7 @@ def gen_fn_program(rng, mode):
         kinds.remove("shr")
     inner = None
     if "nested_generic" in kinds:
-        pr.fns["inner1"] = (["TT"], "TT", "TT x", "  return x + 1;")
+        pr.fns["inner1"] = (["TT"], "TT", "TT x", "  TT y = x;\n  return y + 1;")
         pr.fn_order.append("inner1")
         inner = "inner1"
     if "match" in kinds:
@@ -896,9 +909,9 @@ def gen_fn_program(rng, mode):
             for _ in range(rng.randint(1, 2)):
                 va, vb = value_of(rng, ty, ["p1", "p2"]), value_of(rng, ty, ["p1", "p2"])
                 if ty == "P":
-                    # a TT-typed local with TT := a struct is a known finding (type_info clobbered): choose has none
                     r = "r%d" % len(calls)
-                    calls.append("  P %s = choose<P>(%s, %s, %d); %s" % (r, va, vb, rng.randint(0, 3), print_of("P", r)))
+                    calls.append("  P %s = %s<P>(%s, %s, %d); %s" % (r, rng.choice(["choose", "pick"]), va, vb, rng.randint(0, 3),
+                                                               print_of("P", r)))
                 else:
                     calls.append("  println(pick<%s>(%s, %s, %d));" % (ty, va, vb, rng.randint(0, 3)))
     # two type parameters, used at (X, Y) and (Y, X)
@@ -1151,10 +1164,13 @@ BASIC = {"void", "tiny", "short", "int", "long", "string", "char", "bool"}
 
 def classify_instance(o_tree, t_model, tparams, targs, pinned, multi_tuple, fn_names=()):
     """Why a generic function instantiation is outside what the theorems promise (empty list = inside:
-    the twin run is demanded to agree).  o_tree: the parser's AST; t_model: the model's instantiation."""
+    the twin run is demanded to agree).  Decided on the PARSER's tree and the recorded lists of Pinned.v only,
+    never on the current tables or the current model output: a member that is newly not copied / not
+    rewritten must not be excused."""
     why = []
-    rec_children = set(pinned["recorded_missing_ptr"] + pinned["recorded_missing_vec"] + pinned["recorded_missing_indirect"])
-    rec_scalars = set(pinned["recorded_missing_scalar"])
+    rec_children = set(pinned.get("recorded_missing_ptr", []) + pinned.get("recorded_missing_vec", []) +
+                       pinned.get("recorded_missing_indirect", []))
+    rec_scalars = set(pinned.get("recorded_missing_scalar", []))
     kids_used, scal_used = set(), set()
     for n in walk(o_tree):
         kids_used.update(f for f, _ in n[2])
@@ -1163,16 +1179,11 @@ def classify_instance(o_tree, t_model, tparams, targs, pinned, multi_tuple, fn_n
     if ch:
         why.append("clone-children:" + ",".join(ch))
     sc = sorted((scal_used & rec_scalars) - HARMLESS_SCALARS)
-    if "function_address_name" in sc:
-        # `&x` records x as a possible function name; losing it matters only when x IS a function
-        if not any(dict(n[1]).get("function_address_name") in fn_names for n in walk(o_tree)):
-            sc = [f for f in sc if f not in ("function_address_name", "is_function_address")]
     if sc:
         why.append("clone-scalars:" + ",".join(sc))
-    # a type parameter the recorded rewriting cannot reach (decided on the PARSER's tree and the recorded lists only, never on
-    # the current model output: a member that newly stays unrewritten must not be excused): the members in
-    # recorded_unrewritten (type_arguments of a nested generic call, new T), and spellings that are not a plain type
-    # expression (T[3], Pair<A, B>*) - except `T* p`, where the base type name, which is what is read, is a plain T
+    # a type parameter the recorded rewriting cannot reach: the members in recorded_unrewritten, and spellings that
+    # are not a plain type expression (T[3], Pair<A, B>*) - except `T* p`, where the base type name, which is what
+    # is read, is a plain T
     rx = re.compile(r"\b(%s)\b" % "|".join(map(re.escape, tparams))) if tparams else None
     if rx:
         for n in walk(o_tree):
@@ -1191,20 +1202,12 @@ def classify_instance(o_tree, t_model, tparams, targs, pinned, multi_tuple, fn_n
             if hit:
                 why.append(hit)
                 break
-    # type_info recomputed from a non-basic plain type name (struct / enum / interface name)
-    structy = [a for a in targs if a not in BASIC]
-    for n in walk(o_tree):
-        d = dict(n[1])
-        tn = d.get("type_name", "")
-        if n[0] in (28, 32, 30) and tn and "<" not in tn and "_" not in tn and "*" not in tn and "[" not in tn:
-            if tn in tparams and structy and n[0] == 28:
-                why.append("typeinfo-clobber:local of type parameter bound to struct")
-                break
-            if tn not in tparams and tn not in BASIC and n[0] == 28:
-                why.append("typeinfo-clobber:local of struct type " + tn)
-                break
     if multi_tuple and any(dict(n[1]).get("is_static") == "1" for n in walk(o_tree)):
         why.append("static-shared")
+    # `T[3] x;` in a generic function body is parsed as the expression T[3] followed by the expression x
+    # (known finding C11-generic-fn-local-array-of-T): a VARIABLE node named like a type parameter
+    if any(n[0] == 1 and dict(n[1]).get("name") in tparams for n in walk(o_tree)):
+        why.append("parser:type parameter parsed as a variable (T[n] local)")
     return why
 
 
@@ -1218,7 +1221,7 @@ def gen_kind_program(seed, kind, family, j):
         pr = Program()
         inner = None
         if kind == "nested_generic":
-            pr.fns["inner1"] = (["TT"], "TT", "TT x", "  return x + 1;")
+            pr.fns["inner1"] = (["TT"], "TT", "TT x", "  TT y = x;\n  return y + 1;")
             pr.fn_order.append("inner1")
             inner = "inner1"
         if kind == "match":
@@ -1280,7 +1283,9 @@ def gen_tuple_program(x, y):
     m.append("  " + show(y, "unbox<%s>(by)" % y, "t6"))
     m.append("  bx.v = %s; by.v = %s;" % (val(x, 3), val(y, 3)))
     m.append("  " + show(x, "unbox<%s>(bx)" % x, "t7"))
-    m.append("  " + show(y, "choose<%s>(%s, by.v, 2)" % (y, val(y, 1)), "t8"))
+    # a struct-typed MEMBER passed directly to a struct parameter fails in non-generic code too: go through a local
+    m.append("  %s tv = by.v;" % y)
+    m.append("  " + show(y, "choose<%s>(%s, tv, 2)" % (y, val(y, 1)), "t8"))
     m.append("  " + show(x, "second<%s, %s>(%s, %s)" % (y, x, val(y, 1), val(x, 1)), "t9"))       # n-th use like the first
     m.append("  Pair<%s, %s> pq; pq.first = %s; pq.second = %s;" % (x, y, val(x, 0), val(y, 1)))
     m.append("  Pair<%s, %s> qp; qp.first = %s; qp.second = %s;" % (y, x, val(y, 0), val(x, 1)))
@@ -1337,7 +1342,8 @@ def run(rep):
     pinned = pinned_lists()
     new_missing = []
     if tab:
-        rec = set(pinned["recorded_missing_ptr"] + pinned["recorded_missing_vec"] + pinned["recorded_missing_indirect"])
+        rec = set(pinned.get("recorded_missing_ptr", []) + pinned.get("recorded_missing_vec", []) +
+                  pinned.get("recorded_missing_indirect", []))
         cur = tab["missing"]["ptr"] + tab["missing"]["vec"] + tab["missing"]["indirect"]
         new_missing = [f for f in cur if f not in rec]
         fixed = sorted(rec - set(cur))
@@ -1458,6 +1464,20 @@ def _run_body(rep, seed, tier, quick, lap, cq, proof_broken, new_missing, pinned
             progs.append(gen_program(sd, k))
 
     lap("program generation")
+    # corpus: the minimised inputs of repaired findings stay in every run (demanded)
+    if os.path.exists(corpus):
+        for c in json.load(open(corpus)):
+            if "generic" in c:
+                g = common.run_cb(impl_dir, c["generic"], timeout=6)
+                t = common.run_cb(impl_dir, c["twin"], timeout=6)
+                hist["corpus-programs"] = hist.get("corpus-programs", 0) + 1
+                if (g[0], g[1]) != (t[0], t[1]):
+                    violations_with_input += 1
+                    rep.violation("corpus", {"id": c.get("id"), "generic_program": c["generic"], "twin_program": c["twin"],
+                                             "generic": {"rc": g[0], "stdout": g[1][-800:], "stderr": g[2][-300:]},
+                                             "twin": {"rc": t[0], "stdout": t[1][-800:]}, "fixed_by": c.get("fixed_by")},
+                                  "repaired finding %s is back: generic rc=%d %r, twin rc=%d %r" % (
+                                      c.get("id"), g[0], (g[1] or g[2])[-80:], t[0], t[1][-80:]))
     # A1 + classification on the parser's ASTs of every generic function instance
     tmpd = tempfile.mkdtemp(prefix="cbverif-c11-", dir=common.SCRATCH_ROOT)
     real_inst = real_bad = 0
